@@ -9,8 +9,8 @@ CONSTANTS
   TagKey = "tag_u"
   Vals <- V12
   Nodes <- N1
-  Ctxs <- CtxTwo
-  WorldsOf <- WorldsAll
+  Ctxs <- CtxOne
+  WorldsOf <- WorldsTag
   PutArgs <- PutMeta
   ChunkSize = 2
   MaxRetries = 1
@@ -20,7 +20,7 @@ CONSTANTS
   MaxClock = 2
   MaxMeta = 2
   MaxCalls = 1
-  MaxOpens = 2
+  MaxOpens = 1
   ExplicitRel = 5
   ExplicitAbs = 7
   IdempotentIds = TRUE
